@@ -117,7 +117,7 @@ Definition same_lg (s0 s : vst) : Prop :=
   forall k, mol0 s k == mol0 s0 k.
 
 Lemma same_lg_refl s : same_lg s s.
-Proof. unfold same_lg. repeat split; auto. intros; reflexivity. Qed.
+Proof. unfold same_lg. repeat split; auto; try (intros; reflexivity). Qed.
 Lemma same_lg_trans a b c : same_lg a b -> same_lg b c -> same_lg a c.
 Proof.
   unfold same_lg. intros (A1 & A2 & A3 & A4) (B1 & B2 & B3 & B4). repeat split; try congruence.
@@ -275,7 +275,7 @@ Proof.
       apply negb_false_iff in A. apply qzerob_true in A. exact A. }
     rewrite nthq_vadd in Z by exact W. destruct (N k). split; lra.
   - destruct (negb (anynz (gather (vle_idx cf (vadd (liq s) (vap s))) (vadd (liq s) (vap s))))) eqn:E2.
-    + inversion H as [H1]. right. rewrite H1 at 1. rewrite H1. reflexivity.
+    + injection H as H1. right. symmetry. exact H1.
     + match type of H with (if ?b then _ else _) = _ => destruct b; discriminate end.
 Qed.
 
